@@ -137,12 +137,62 @@ def run(R):
         r4(R)
     if R.want("C16.R6"):
         r6(R)
+    if R.want("C16.R7"):
+        r7(R)
     if R.want("C16.R5"):
         # the users of the reduction (refinegrains.makeuniq, point_by_point) install the canonical matrix through grain.set_ubi:
         # a direct write of <grain>.ubi leaves U / UB / B / Rod of the previous orbit member in the caches.  Shared with C04.R1.
         from engine import report
         from rules import c04
         c04.r1(report.Alias(R, {"C04.R1": "C16.R5"}))
+
+
+def r7(R):
+    """point_by_point.idxpoint hands back (npks, nuniq, UBI) triples; the maps built from them compare UBIs of neighbouring pixels as
+    matrices, so every UBI leaving the function is the canonical orbit member: it is the value of sym_u.find_uniq_u(...), or an
+    element of ind.ubis at a point dominated by  ind.ubis = [sym_u.find_uniq_u(..) for ..]  (all of them reduced at once)."""
+    PBP = "ImageD11/sinograms/point_by_point.py"
+    R.rule("C16.R7", "point_by_point.idxpoint: every orientation it returns - on the one-candidate early return as well as from the sorted loop - "
+                     "has been through sym_u.find_uniq_u (directly, or as an element of ind.ubis after the list was reduced as a whole)")
+    m = pyfacts.module(R, PBP)
+    fn = m.func("idxpoint")
+    cfg = pyfacts.PyCFG(fn)
+
+    def is_reduce(e):
+        return isinstance(e, ast.Call) and (pyfacts.dotted(e.func) or "").split(".")[-1] == "find_uniq_u"
+
+    whole = [a for a in ast.walk(fn) if isinstance(a, ast.Assign) and len(a.targets) == 1 and src(a.targets[0]) == "ind.ubis"
+             and isinstance(a.value, ast.ListComp) and is_reduce(a.value.elt)]
+    other = [a for a in ast.walk(fn) if isinstance(a, (ast.Assign, ast.AugAssign)) and any(src(t) == "ind.ubis" for t in (a.targets if isinstance(a, ast.Assign) else [a.target]))
+             and a not in whole]
+    outs = []
+    for n_ in ast.walk(fn):
+        tups = []
+        if isinstance(n_, ast.Return) and isinstance(n_.value, (ast.List, ast.Tuple)):
+            tups = [t for t in n_.value.elts if isinstance(t, ast.Tuple)]
+        elif isinstance(n_, ast.Expr) and isinstance(n_.value, ast.Call) and isinstance(n_.value.func, ast.Attribute) and n_.value.func.attr == "append" \
+                and n_.value.args and isinstance(n_.value.args[0], ast.Tuple):
+            tups = [n_.value.args[0]]
+        for t in tups:
+            if len(t.elts) == 3:
+                outs.append((n_, t.elts[2]))
+    R.shape(len(outs) >= 2, "C16.R7", PBP, "idxpoint", "the (ntotal, nuniq, ubi) triples it returns / appends")
+    for st, e in outs:
+        if "ubi" not in src(e).lower():
+            continue          # np.eye(3) for 'nothing found'
+        nd = cfg.node_of(st)
+        R.shape(nd is not None, "C16.R7", PBP, "idxpoint", "the statement '%s' in the flow graph" % src(st)[:50])
+        ok = is_reduce(e)
+        if not ok and src(e).startswith("ind.ubis"):
+            ok = any(cfg.node_of(w) is not None and cfg.dominates(cfg.node_of(w), nd) for w in whole) and \
+                not any(cfg.node_of(o) is not None and any(cfg.dominates(cfg.node_of(w), cfg.node_of(o)) for w in whole if cfg.node_of(w) is not None) for o in other)
+        elif not ok:
+            R.shape(False, "C16.R7", PBP, "idxpoint", "where the returned orientation %s comes from" % src(e)[:40])
+        R.check(ok, "C16.R7", PBP, st.lineno, "idxpoint", "returned orientation %s" % src(e)[:50],
+                "this orientation leaves idxpoint as the indexer found it, not as the canonical member of its symmetry orbit: pixels of one "
+                "grain get different (equivalent) matrices depending on how many candidates the pixel had, and comparing UBIs across the "
+                "map no longer recognises them as the same orientation")
+    R.floor("C16.R7", 2)
 
 
 def generators_of(m, name):
